@@ -294,9 +294,9 @@ func TestC07(t *testing.T) {
 		ev.Distinct(fmt.Sprintf("issue-times|%d|%d", fi, len(tsSet)))
 	}
 	// 7. nonce uniqueness over many issues (statistical clause, see DESIGN.md)
-	n := 20000
+	n := 150000 // more than 2^16 and 2^17: a counter of that width inside the nonce would wrap
 	if ev.Thorough() {
-		n = 200000
+		n = 3000000
 	}
 	seen := make(map[string]struct{}, n)
 	for i := 0; i < n; i++ {
